@@ -124,6 +124,11 @@ def run(report, tier, seed):
                       by=o['by'], detail=o.get('detail'),
                       meta={'line': o['line']}))
     from contracts.py import relational_spec
+    for f_ in ('constraint.__init__', 'variable.__le__', 'variable.__ge__',
+               'variable.__eq__', '_function.__le__', '_function.__ge__',
+               '_function.__eq__'):
+        if 'modeling.py:' + f_ not in report.functions:
+            report.functions.append('modeling.py:' + f_)
     try:
         for o in relational_spec.obligations():
             if o['kind'] != 'relation-direction':
